@@ -143,31 +143,74 @@ def build():
     def fobj(interp):
         peek = interp.ctx.choose(2, "peekable")
         o = Opaque("srcfile", None)
-        o.attrs["hasattr"] = {"peek": bool(peek)}
+        o.attrs["hasattr"] = {"peek": bool(peek), "seekable": True, "tell": True, "seek": True}
+        o.attrs["is_seekable"] = bool(interp.ctx.choose(2, "seekable")) if peek else True
         return o
 
-    def _head(interp, n, exact):
-        # FIRST = the bytes of the stream from its current position; read(n) returns its first min(n, len) bytes, peek(n) at least those
+    # Stream model.  FIRST = the bytes of the stream from the position at entry (POS0); POS = current position relative to it.
+    #   read(n)  returns FIRST[POS : POS+n] (short only at the end of the stream) and advances
+    #   peek(n)  io.BufferedReader: "the number of bytes returned may be less or more than requested" - at least one byte unless
+    #            at the end of the stream; a short answer happens when the internal buffer is nearly drained (after earlier reads
+    #            of the same file, e.g. the second of several objects dumped one after the other)
+    #   seek/tell: absolute positions are POS0 + POS with POS0 >= 0 unknown
+    # Domain assumption (stated in the evidence): a NON-seekable peekable stream answers peek with at least the bytes asked for
+    # when they exist - nothing can be done otherwise without consuming the stream.
+    def _rest(interp):
         ctx = interp.ctx
         first = ctx.ghost["FIRST"].term
-        nn = ops.as_int_term(n)
-        m = z3.Int(ctx.fresh_name("got"))
-        lo = z3.If(nn < z3.Length(first), nn, z3.Length(first))
-        ctx.assume(z3.And(m >= lo, m <= z3.Length(first)) if not exact else m == lo)
-        ctx.assume(nn >= 0)
-        return Sym(BYTES, z3.SubSeq(first, 0, m))
+        pos = ops.as_int_term(ctx.ghost["POS"])
+        return z3.SubSeq(first, pos, z3.Length(first) - pos)
 
     def peek(interp, recv, args, kwargs):
-        interp.ctx.events.append(("peek", args[0]))
-        return _head(interp, args[0], False)
+        ctx = interp.ctx
+        ctx.events.append(("peek", args[0]))
+        rest, nn = _rest(interp), ops.as_int_term(args[0])
+        m = z3.Int(ctx.fresh_name("got"))
+        full = z3.If(nn < z3.Length(rest), nn, z3.Length(rest))
+        ctx.assume(z3.And(m <= z3.Length(rest), m >= z3.If(z3.Length(rest) > 0, 1, 0)))
+        if not recv.attrs.get("is_seekable", True):
+            ctx.assume(m >= full)
+        return Sym(BYTES, z3.SubSeq(rest, 0, m))
 
     def read(interp, recv, args, kwargs):
-        interp.ctx.events.append(("read", args[0]))
-        return _head(interp, args[0], True)
+        ctx = interp.ctx
+        ctx.events.append(("read", args[0]))
+        rest, nn = _rest(interp), ops.as_int_term(args[0])
+        ctx.assume(nn >= 0)
+        m = z3.If(nn < z3.Length(rest), nn, z3.Length(rest))
+        out = Sym(BYTES, z3.SubSeq(rest, 0, m))
+        ctx.ghost["POS"] = Sym(INT, ops.as_int_term(ctx.ghost["POS"]) + m)
+        return out
+
+    def seek(interp, recv, args, kwargs):
+        ctx = interp.ctx
+        if not recv.attrs.get("is_seekable", True):
+            interp.raise_("OSError")
+        whence = args[1] if len(args) > 1 else kwargs.get("whence", 0)
+        if whence not in (0, 1):
+            raise Unsupported("seek whence %r" % (whence,))
+        ctx.events.append(("seek", args[0], whence))
+        off = ops.as_int_term(args[0])
+        new = off - ops.as_int_term(ctx.ghost["POS0"]) if whence == 0 else ops.as_int_term(ctx.ghost["POS"]) + off
+        ctx.ghost["POS"] = Sym(INT, new)
+        return Sym(INT, new + ops.as_int_term(ctx.ghost["POS0"]))
+
+    def tell(interp, recv, args, kwargs):
+        ctx = interp.ctx
+        if not recv.attrs.get("is_seekable", True):
+            interp.raise_("OSError")
+        return Sym(INT, ops.as_int_term(ctx.ghost["POS0"]) + ops.as_int_term(ctx.ghost["POS"]))
 
     p.models["srcfile.peek"] = peek
     p.models["srcfile.read"] = read
-    p.models["srcfile.seek"] = lambda i, r, a, k: i.ctx.events.append(("seek", a[0]))
+    p.models["srcfile.seek"] = seek
+    p.models["srcfile.tell"] = tell
+    p.models["srcfile.seekable"] = lambda i, r, a, k: r.attrs.get("is_seekable", True)
+
+    def stream_setup(interp, env):
+        g = interp.ctx.ghost
+        interp.ctx.assume(ops.as_int_term(g["POS0"]) >= 0)
+        g["POS"] = 0
 
     def prefix_of(interp, name):
         t = interp.global_lookup("_COMPRESSORS", None)
@@ -175,15 +218,20 @@ def build():
 
     p.spec_funcs["starts"] = lambda interp, b, pre: ops.mk_bool(z3.PrefixOf(to_term(pre), to_term(b)))
     p.spec_funcs["prefix_of"] = prefix_of
-    ens_body = {"position_restored": "n_events('peek') == 1 or (n_events('read') == 1 and n_events('seek') == 1 and events_named('seek')[0][1] == 0)"}
-    ens = {"legacy": "iff(starts(FIRST, b'ZF'), result == 'compat')",
+    p.spec_funcs["has_peek"] = lambda interp, o: bool(o.attrs["hasattr"].get("peek"))
+    ens_body = {}
+    ens = {"position_restored": "POS == 0",
+           "legacy": "iff(starts(FIRST, b'ZF'), result == 'compat')",
            "plain_pickle": "implies(starts(FIRST, b'\\x80'), result == 'not-compressed')"}
     for m in METHODS:
         ens["detects_" + m] = "implies(starts(FIRST, prefix_of('%s')), result == '%s')" % (m, m)
     from pyvc.values import Alternatives
     p.add(Contract(
-        NU, "_detect_compressor", props=["C03"], globals=glob, ghost=dict(FIRST=BYTES),
+        NU, "_detect_compressor", props=["C03"], globals=glob, ghost=dict(FIRST=BYTES, POS0=INT, POS=INT), setup=stream_setup,
         inline={"_get_prefixes_max_len"},
+        # streams without peek() (io.BytesIO) are loaded from their start: joblib rewinds them to offset 0 (relied upon by its own
+        # tests), so the object has to start there - domain precondition, the property does not speak of objects at an offset of a buffer
+        requires=["has_peek(fileobj) or POS0 == 0"],
         params=dict(fileobj=fobj),
         returns=lambda interp, env: Alternatives(["compat", "not-compressed"] + METHODS),
         ensures=ens, ensures_body=ens_body,
@@ -201,7 +249,7 @@ def build():
         rens["reader_of_" + m] = ("implies(starts(FIRST, prefix_of('%s')), n_events('decompressor_file') == 1 and ev(0)[1] == '%s' and ev(0)[2] is fileobj "
                                   "and yields[0][0].inner.codec == '%s')" % (m, m, m))
     p.add(Contract(
-        NU, "_validate_fileobject_and_memmap", props=["C03"], globals=vglob, ghost=dict(FIRST=BYTES),
+        NU, "_validate_fileobject_and_memmap", props=["C03"], globals=vglob, ghost=dict(FIRST=BYTES, POS0=INT, POS=INT), setup=stream_setup,
         params=dict(fileobj=lambda interp: Opaque("srcfile", None, hasattr={"peek": True}, isinstance=()), filename=STR, mmap_mode=OneOf(None, "r")),
         ensures=rens,
     ))
